@@ -539,7 +539,7 @@ func TestVerif_C48(t *testing.T) {
 	}
 	res.Count("directed", len(scen))
 	r := kit.Rand(48)
-	n := kit.Pick(2000, 40000)
+	n := kit.Pick(1600, 40000)
 	for i := 0; i < n; i++ {
 		emit(c48Run("random", c48Uni, c48RandomScenario(r)))
 	}
